@@ -18,14 +18,17 @@ MANIFEST = dict(
          "batchEval_eq_map the values the layer returns are the same for every chunk size / pool size / pool presence "
          "(values_independent_of_pool_settings_partial, with counter-examples for each hypothesis); (2) every random-number site "
          "(numpy.random, torch, scipy rvs, .sample of flows, generator constructions, stdlib random, OS entropy) draws from a "
-         "generator that configure_random_seed seeds (rng_sites_seeded); (3) the only draw whose execution depends on a "
+         "generator that configure_random_seed seeds (rng_sites_seeded), and the decision logic of configure_random_seed itself is "
+         "translated: the seed is replaced by a random one exactly when it is None (seed_replaced_iff_none — seed 0 is kept) and "
+         "both generators are seeded unconditionally with the stored value (seeding_unconditional_with_stored_seed); (3) the only draw whose execution depends on a "
          "parallelisation setting is the vectorisation probe, and a model of configure_pool + probe proves that it consumes the "
          "same random numbers for every pool setting with a known pool size and shows the two ways it does not (an unknown-size "
          "user pool: the known finding; a cached probe on a re-used Model instance: outside the property's domain, noted only). "
          "Tie: the generated tables (re-proved by lake build), a dynamic cross-check that every numpy/torch RNG call and every "
          "setting read observed while tracing real runs is a row of the static tables, and a correspondence of the probe model "
          "with the real Model.configure_pool / batch_evaluate_log_likelihood on a full grid. Failing-input search = complete "
-         "seeded runs of both samplers, every run with a freshly built Model instance, in separate processes (fork children, twice "
+         "seeded runs of both samplers (random seeds and the edge seeds 0, 1, 2^32-2), every run with a freshly built Model instance "
+         "and starting from a different scrambled ambient NumPy/torch generator state, in separate processes (fork children, twice "
          "in one process, and fresh interpreters with different hash seeds) "
          "compared by sha256 of nested samples, evidence, posterior weights and evaluation counts across pool sizes, user pools, "
          "chunk sizes and parallel prior evaluation.",
@@ -36,6 +39,7 @@ MANIFEST = dict(
     ref="5/C14")
 
 GEN = {"tables": None, "error": None}
+EDGE_SEEDS = (0, 1, 2 ** 32 - 2)
 KNOWN_SIZELESS = "Model.configure_pool:user-pool-of-unknown-size:vectorisation-probe-consumes-seeded-rng"
 
 
@@ -53,6 +57,7 @@ def gen(ctx):
     rewritten = tables.write_if_changed(core.LEAN / "NessaiVerif" / "Gen" / "Tables.lean", text)
     ctx.extra["generated"] = dict(files=t["n_files"], sha256=t["sha256"], pool_reads=len(t["reads"]), pool_calls=len(t["calls"]),
                                   rng_sites=len(t["sites"]), guarded_draws=len(t["guarded"]), seeded=t["seeded"],
+                                  seed_guard=t["seedfn"]["guard_src"], seed_guard_lean=t["seedfn"]["guard_lean"],
                                   rewritten=rewritten)
 
 
@@ -209,7 +214,64 @@ def probe_correspondence(ctx):
     ctx.diff_model(lines, impls, cases, what="probe model != Model.configure_pool / batch_evaluate_log_likelihood")
 
 
+# ================================================================================================ configure_random_seed
+def seed_correspondence(ctx):
+    """real BaseNestedSampler.configure_random_seed on edge seeds under two different ambient generator states:
+    oracle (an integer seed is kept and fully determines both generators) + tie of the generated guard"""
+    import types
+    import torch
+    from nessai.samplers.base import BaseNestedSampler
+    seeds = [None, 0, 1, 2, 2 ** 31 - 1, 2 ** 31, 2 ** 32 - 2] + [ctx.rng.randrange(3, 2 ** 32 - 2) for _ in range(5)]
+    lines, impls, cases = [], [], []
+    for seed in seeds:
+        obs = []
+        for _ in range(2):
+            amb = ctx.rng.getrandbits(31)
+            np.random.seed(amb)
+            torch.manual_seed(amb)
+            stub = types.SimpleNamespace()
+            try:
+                BaseNestedSampler.configure_random_seed(stub, seed)
+            except Exception as e:  # noqa
+                obs.append(("err", type(e).__name__, "", amb))
+                continue
+            obs.append((stub.seed, np.random.get_state()[1].tobytes() + bytes([np.random.get_state()[2] % 256]),
+                        torch.get_rng_state().numpy().tobytes(), amb))
+        case = dict(layer="configure_random_seed", seed=seed, ambient=[o[3] for o in obs])
+        replaced = seed is None or any(o[0] != seed for o in obs)
+        if seed is not None:
+            key = f"BaseNestedSampler.configure_random_seed.seed={seed if seed in (0, 1, 2 ** 32 - 2) else 'int'}"
+            if any(o[0] == "err" for o in obs):
+                ctx.oracle_fail(key, f"configure_random_seed({seed}) raised {obs}", case)
+            elif any(o[0] != seed for o in obs):
+                ctx.oracle_fail(key, f"configure_random_seed({seed}) did not keep the user's seed: self.seed = {[o[0] for o in obs]} "
+                                "(drawn from the ambient generator state) — two runs with this seed are not reproducible", case)
+            else:
+                np.random.seed(seed)
+                torch.manual_seed(seed)
+                want = (np.random.get_state()[1].tobytes() + bytes([np.random.get_state()[2] % 256]),
+                        torch.get_rng_state().numpy().tobytes())
+                for o in obs:
+                    if (o[1], o[2]) != want:
+                        which = [n for n, a, b in (("numpy", o[1], want[0]), ("torch", o[2], want[1])) if a != b]
+                        ctx.oracle_fail(key, f"after configure_random_seed({seed}) the {which} global generator is not in the state "
+                                        "determined by the seed (depends on the ambient state)", case)
+                        break
+        lines.append(f"tab seedguard {'none' if seed is None else seed}")
+        impls.append("1" if replaced else "0")
+        cases.append(case)
+        ctx.case(("seed", seed), True, case, kind="configure_random_seed:" + ("None" if seed is None else "int"))
+    ctx.diff_model(lines, impls, cases, what="generated seed guard != real configure_random_seed")
+
+
 # ================================================================================================ digest runs (oracle)
+def group_tag(base):
+    tag = base["sampler"] + ("" if base.get("flows", "fake") == "fake" else "-realflows") + ":" + base["model"]
+    if base.get("edge"):
+        tag += f".seed={base['seed']}"
+    return tag
+
+
 def differs(a, b):
     return [f for f in runs.FIELDS if a.get(f) != b.get(f)]
 
@@ -262,6 +324,10 @@ def base_cfgs(level, ctx):
     cfgs.append(dict(sampler="ins", model="vec", seed=seeds[-1], flows="real"))
     if level != "quick":
         cfgs.append(dict(sampler="ins", model="scalar", seed=seeds[0], flows="fake"))
+    # edge seeds: every integer is a legal seed, 0 included (a falsy value!), up to the largest NumPy accepts
+    for seed in EDGE_SEEDS:
+        cfgs.append(dict(sampler="ns", model="vec", seed=seed, max_iteration=120, edge=True))
+        cfgs.append(dict(sampler="ins", model="vec", seed=seed, flows="fake", edge=True))
     return cfgs
 
 
@@ -269,27 +335,36 @@ def digest_matrix(ctx, level, t):
     jobs = []      # (group index, role, cfg)
     bases = base_cfgs(level, ctx)
     fresh = []
+    def amb(cfg):
+        # a different ambient generator state for every compared run (what separate processes have)
+        return {**cfg, "ambient": ctx.rng.getrandbits(31)}
+
     for gi, base in enumerate(bases):
         light = base["model"] == "scalar" or base.get("flows") == "real"
-        jobs.append((gi, "base", base))
-        jobs.append((gi, "again", base))
-        jobs.append((gi, "twice-fresh-model", {**base, "repeat": 2}))
+        edge = base.get("edge", False)
+        jobs.append((gi, "base", amb(base)))
+        jobs.append((gi, "again", amb(base)))
+        jobs.append((gi, "twice-fresh-model", amb({**base, "repeat": 2})))
+        if edge:
+            if base["seed"] == 0:
+                fresh.append((gi, 7, runs.start_fresh_interpreter(amb(base), 7)))
+            continue
         if gi == 0:
             # OUTSIDE the property's domain (the property compares equal model definitions, i.e. fresh instances, as a
             # second process necessarily has): one Model *instance* reused for a second in-process run.  Observed and
             # recorded in the evidence only; never routed to the oracle.
-            jobs.append((gi, "observe-reused-instance", {**base, "repeat": 2, "reuse_model": True}))
-        jobs.append((gi, "unknown-size-pool", {**base, "pool": "user_sizeless", "n_pool": 2}))
+            jobs.append((gi, "observe-reused-instance", amb({**base, "repeat": 2, "reuse_model": True})))
+        jobs.append((gi, "unknown-size-pool", amb({**base, "pool": "user_sizeless", "n_pool": 2})))
         if not light or level != "quick":
-            jobs.append((gi, "traced", {**base, "trace": True, "pool": "n_pool", "n_pool": 2}))
+            jobs.append((gi, "traced", amb({**base, "trace": True, "pool": "n_pool", "n_pool": 2})))
         vs = variants(level, ctx.rng)
         if light:
             vs = ctx.rng.sample(vs, 3 if level == "quick" else 12)
         for v in vs:
-            jobs.append((gi, "variant", {**base, **v}))
+            jobs.append((gi, "variant", amb({**base, **v})))
         if (level == "quick" and gi < 2) or (level != "quick" and gi < 4):
             for hs in (1, 4242):
-                fresh.append((gi, hs, runs.start_fresh_interpreter(base, hs)))
+                fresh.append((gi, hs, runs.start_fresh_interpreter(amb(base), hs)))
     res = runs.run_many([j[2] for j in jobs], jobs=min(6, max(2, (os.cpu_count() or 2) // 2)))
     by_group = {}
     for (gi, role, cfg), r in zip(jobs, res):
@@ -297,7 +372,7 @@ def digest_matrix(ctx, level, t):
     static_rng_keys = {(s["file"], s["func"], s["line"], s["call"].split(".")[-1]) for s in t["sites"]} if t else set()
     static_reads = {(r["file"], r["func"], r["line"], r["setting"]) for r in t["reads"]} if t else set()
     for gi, base in enumerate(bases):
-        tag = base["sampler"] + ("" if base.get("flows", "fake") == "fake" else "-realflows") + ":" + base["model"]
+        tag = group_tag(base)
         entries = by_group[gi]
         b = entries[0][2]
         if b[0] != "ok":
@@ -361,14 +436,14 @@ def digest_matrix(ctx, level, t):
                 if df:
                     ctx.oracle_fail(f"pool-settings.{setting_name(cfg)}.{tag}",
                                     f"changing only the parallelisation settings changed {df}", {**case, "digest": d})
-            key = ("run", tag, base["seed"], role, json.dumps({k: v for k, v in cfg.items() if k not in base}, sort_keys=True))
+            key = ("run", tag, base["seed"], role, json.dumps({k: v for k, v in cfg.items() if k not in base and k != "ambient"}, sort_keys=True))
             ctx.case(key, True, dict(sampler=tag, seed=base["seed"], role=role,
-                                     settings={k: v for k, v in cfg.items() if k not in base},
+                                     settings={k: v for k, v in cfg.items() if k not in base and k != "ambient"},
                                      nested_samples=b["n"], evaluations=b["likelihood_evaluations"]),
                      kind=f"run:{tag}:{role if role != 'variant' else setting_name(cfg)}")
     for gi, hs, proc in fresh:
         base = bases[gi]
-        tag = base["sampler"] + ":" + base["model"]
+        tag = group_tag(base)
         r = runs.finish_fresh_interpreter(proc)
         b = by_group[gi][0][2][1]
         case = dict(base=base, role="fresh-interpreter", PYTHONHASHSEED=hs, base_digest=b)
@@ -398,13 +473,14 @@ def correspond(ctx):
     ctx.assume("Pool.map preserves order (multiprocessing contract; the table theorem shows no other pool API is used)",
                "likelihood/prior of the runs are built from exactly rounded operations (batch == pointwise bit for bit)",
                "third-party `.sample…` methods draw from the default torch generator",
-               "one torch thread; fork start method")
+               "one torch thread; fork start method; every run starts from its own scrambled ambient generator state")
     ctx.trust("translator harness/c14_tables.py (Python ast) — cross-checked against call sites observed while tracing real runs",
               "hand-written allow-lists and probe model in Model/Tables.lean; digests: sha256 over the raw bytes of every field")
     t = GEN["tables"]
     if t:
         classify_tables(ctx, t)
     probe_correspondence(ctx)
+    seed_correspondence(ctx)
     level = "quick" if ctx.quick else "thorough"
     digest_matrix(ctx, level, t)
     ctx.extra["digest_matrix"] = level
